@@ -374,6 +374,8 @@ func run(c *rig.Ctx) {
 		}
 	})
 	c.MarkExhaustive("every NR43 value with shift s <= 13 (both LFSR widths, all divisor codes)")
+
+	crosstalk(c)
 }
 
 func main() {
